@@ -421,7 +421,8 @@ pub fn replay_once(scn: &dyn Scenario, hist: &[Act]) -> (Vec<crate::check::Findi
             }
         }
     }
-    let v = View::of(&mut w, hist.len());
+    let mut v = View::of(&mut w, hist.len());
+    v.hist = hist.to_vec();
     findings.extend(scn.state_oracle(&mut w, &v, &mut goals));
     let _ = apply;
     (findings, transcript)
